@@ -126,6 +126,9 @@ pub struct ConnOutcome {
     pub panics: Vec<String>,
     pub max_alloc: usize,
     pub end_ns: u64,
+    /// back-end calls still being waited for after the handler has returned (or was cancelled)
+    #[serde(default)]
+    pub calls_in_flight_at_end: i64,
 }
 
 impl ConnOutcome {
@@ -329,5 +332,6 @@ async fn run_conn_async(sc: &ConnScenario) -> ConnOutcome {
         panics: alloc::take_panics(),
         max_alloc: alloc::max_alloc(),
         end_ns: w.now_ns(),
+        calls_in_flight_at_end: sh.in_flight.load(std::sync::atomic::Ordering::SeqCst),
     }
 }
